@@ -1,4 +1,5 @@
 import NV.Model.Reply
+import NV.Gen.Bounds
 namespace NV.C02
 open NV
 
@@ -280,5 +281,52 @@ theorem handler_replies (payload : Bytes) (o : Outcome) :
     · unfold tcpReply
       have h1 := resolved_len_pos q o
       simp [be16]; omega
+
+/-! ### no index-out-of-range panic on option data -/
+
+/-- **C02 (no crash on option data)**: the option loop of `parse`, with every index and slice
+expression on `o.Data` carrying Go's run-time bounds check, never panics — for every option list
+(any codes, any data lengths, truncated ECS headers included) — and computes what the unchecked model
+`applyOpts` computes. -/
+theorem applyOpts_no_oob (os : List Opt) (q : Query) : applyOpts? os q = some (applyOpts os q) := by
+  induction os generalizing q with
+  | nil => rfl
+  | cons o os ih =>
+    have h1 : applyOpt? o q = some (applyOpts [o] q) := by
+      unfold applyOpt? applyOpts applyOpts idx? slice?
+      by_cases hm : o.code = 0xfde9
+      · simp [hm]
+      · by_cases h8 : o.code = 8
+        · by_cases hl : o.data.length < 8
+          · simp [h8, hl]
+          · have h1 : 1 < o.data.length := by omega
+            have h2 : 2 < o.data.length := by omega
+            have h3 : 8 ≤ o.data.length := by omega
+            simp only [hm, h8, hl, h1, h2, if_true, if_false, Option.bind_some]
+            by_cases hf1 : byteAt o.data 1 = 1
+            · by_cases hb : byteAt o.data 2 = 32 <;> simp [hf1, hb, h3]
+            · by_cases hf2 : byteAt o.data 1 = 2
+              · by_cases hb : byteAt o.data 2 = 128
+                · by_cases h20 : o.data.length ≥ 20
+                  · simp [hf2, hb, h20]
+                  · simp [hf2, hb, h20]
+                · simp [hf2, hb]
+              · simp [hf1, hf2]
+        · simp [hm, h8]
+    have h2 : applyOpts (o :: os) q = applyOpts os (applyOpts [o] q) := by
+      conv => lhs; unfold applyOpts
+      conv => rhs; arg 2; unfold applyOpts applyOpts
+    simp only [applyOpts?, h1, Option.bind_some, ih, h2]
+
+/-- non-vacuity: an ECS option cut after its 4-byte header (the input on which a relaxed guard
+panics) is simply skipped. -/
+example : applyOpts? [{ code := 8, data := [0, 1, 32, 0], dataOff := 30 }] {} = some {} := by decide
+
+/-- **C02 (regenerated)**: every constant index / slice expression on `o.Data` in the option loop of
+resolver/query/query.go is dominated by guards establishing at least the length it needs (the
+accesses and guards are re-read from the source on every run). -/
+theorem gen_optdata_in_bounds :
+    (NV.Gen.Bounds.optDataAccesses.all fun a => a.2.1 ≤ a.2.2) = true ∧
+    4 ≤ NV.Gen.Bounds.optDataAccesses.length := by decide
 
 end NV.C02
